@@ -166,8 +166,9 @@ func (c *faultConn) Close() error {
 }
 
 type c01Result struct {
-	outage  bool // the bulk-upload-with-outage scenario
-	tailCut bool // the first carrier is cut while the last bytes of the download are on their way (the bridge has
+	outage     bool // the bulk-upload-with-outage scenario
+	closeFirst bool // the bridge closes the connection right after its last byte, without waiting for the client
+	tailCut    bool // the first carrier is cut while the last bytes of the download are on their way (the bridge has
 	//                     written everything and closed its end by then); the next carrier appears a little later
 	slowConsumer bool   // bulk download to a client that stops reading for a while; the other sessions must not notice
 	idGroup      []byte // non-nil: base of a group of nearly identical ClientIDs
@@ -518,6 +519,9 @@ func c01Serve(conn net.Conn, results *sync.Map, deadline time.Time) {
 		}
 		res.serverDone = true
 	}
+	if res.closeFirst {
+		return // the bridge closes its end as soon as it has written its last byte (deferred conn.Close)
+	}
 	// keep the stream open until the client has read everything and closes (anything more it sends is foreign)
 	extra := make([]byte, 16)
 	if n, _ := conn.Read(extra); n > 0 {
@@ -628,6 +632,7 @@ func c01Stack(t *testing.T, prop string) {
 				// nothing much to upload: the bridge has read it all, writes its last bytes and closes at once - while
 				// the carrier is already gone
 				res.upLen = rng.Intn(50)
+				res.closeFirst = true
 			}
 		}
 		if s%2 == 0 {
